@@ -277,6 +277,39 @@ def run(ctx):
                     ctx.bad('C11.2-mirror', inst, 'one direction compares values, the other returns a constant (%s / %s)' % (r1['kind'], r2['kind']),
                             ctx.where(B), key='MIRROR:%s:(%s,%s)' % (cmpname, a, b))
 
+    # the operators are the order: < <= > >= (and max / min / clamp) come from cmp, nothing answers them on its own
+    ctx.rule('C11.2-operators-from-cmp', 'for the term types (and the identifier / atom types inside them) the provided methods of PartialOrd / Ord - lt, le, gt, ge, max, min, clamp - are not overridden by code that looks '
+             'at the values itself, and partial_cmp of the two term types is Some(cmp): sort(), is_sorted() and the comparison operators go through lt, so a second opinion there is a second, unexamined order', floor=2)
+    import re as _re11
+    n_op = 0
+    for q in sorted(ctx.F.bodies):
+        m_ = _re11.match(r"^<erltf::([A-Za-z_:]+)(<'[a-z_]+>)? as core::cmp::(PartialOrd>::(lt|le|gt|ge|partial_cmp)|Ord>::(max|min|clamp)|PartialEq>::ne)$", q)
+        if not m_:
+            continue
+        meth = q.rsplit('::', 1)[-1]
+        is_term = m_.group(1) in ('term::OwnedTerm', 'borrowed::BorrowedTerm')
+        if meth == 'partial_cmp' and not is_term:
+            continue
+        OB = P.B(q)
+        n_op += 1
+        looks = None
+        for bb, j, st in OB.stmts():
+            if st['k'] == '=' and st['rv']['k'] == 'discr' and bb in OB.live_blocks():
+                o_ = unwrap(OB.origin_place(st['rv']['pl']))[0] if hasattr(OB, 'origin_place') else None
+                if o_ is not None and o_[0] == 'arg':
+                    looks = bb
+        fields = [bb for bb, j, st in OB.stmts() if st['k'] == '=' and bb in OB.live_blocks() and st['rv']['k'] in ('use', 'ref') and
+                  any(isinstance(e, dict) and 'f' in e for pl_ in ([st['rv'].get('pl')] if st['rv']['k'] == 'ref' else [st['rv']['op'].get('pl')] if st['rv']['op'].get('k') in ('cp', 'mv') else []) if pl_ for e in (pl_.get('p') or []))
+                  and any(l in (1, 2) or l in OB.derived_locals([1, 2]) for l in OB._rv_locals(st['rv']))]
+        delegates = any(any(n in ('core::cmp::Ord::cmp', 'core::cmp::PartialOrd::partial_cmp') or n.endswith(' as core::cmp::Ord>::cmp') for n in callee_names(t)) for bb, t in OB.calls())
+        inst = '%s::%s' % (m_.group(1).rsplit('::', 1)[-1], meth)
+        if looks is not None or (fields and meth != 'partial_cmp') or not delegates:
+            ctx.bad('C11.2-operators-from-cmp', inst, '%s is answered by code of its own (it reads the variants / fields of its operands) instead of by cmp: where the two disagree `a < b`, sort() and is_sorted() follow another order than cmp, '
+                    'BTreeMap and binary_search' % inst, ctx.where(OB, looks if looks is not None else (fields[0] if fields else None)), key='TWIN:%s:own-answer' % q)
+        else:
+            ctx.ok('C11.2-operators-from-cmp', inst, 'delegates to cmp', ctx.where(OB))
+    ctx.anchor(n_op >= 2, 'partial_cmp of OwnedTerm and BorrowedTerm')
+
     # ---------------- clause 3: Eq => Hash ----------------------------------------------------------------------------
     ctx.rule('C11.3-eq-hash', 'values that are == hash equally: no f64 is hashed by its raw bit pattern while compared with IEEE == (-0.0 == 0.0) unless zero is normalised', floor=2)
     for adt in (OWNED, BORROWED):
